@@ -227,3 +227,51 @@ def bulgarian_clamps(repo):
                            evs, ast.unparse(t1), z, ast.unparse(c2.test), top, 'worst', 'best',
                            '<' if kind == 'up' else '>', '>' if kind == 'up' else '<'))
     return out
+
+
+def bulgarian_decision_table(repo):
+    """score() folded (never imported) on the complete tabulated domain: every tabulated mark of every table, the first mark beyond
+    each end and a far mark beyond each end.  [(key, message, witness)], cells"""
+    env, folder = repo.folded(BULGARIAN)
+    fc = env.get('score')
+    scores = env.get('scores')
+    if not isinstance(fc, fold.FuncConst) or not isinstance(scores, dict):
+        raise AnalysisError('bulgarian score() / scores not foldable')
+    import re as _re
+    out = []
+    n = 0
+    for key, t in sorted(scores.items()):
+        m = _re.fullmatch(r'(U\d+)([MFX])(.+)', key)
+        if not m or not isinstance(t, dict) or 'min' not in t or 'max' not in t:
+            continue
+        ag, g, ev = m.groups()
+        lo, hi = t['min'], t['max']                # worst, best
+        step = 1 if hi >= lo else -1
+        F = fold.Folder(importer=folder.importer)
+
+        def sc(k):
+            try:
+                return F.call(fc, [ag, g, ev, k / 100.0], {})
+            except fold._Raise:
+                return '<raises>'
+            except fold.Unfoldable as e:
+                raise AnalysisError('bulgarian score() left the foldable fragment: %s' % e)
+            except Exception as e:
+                return '<raises %s>' % type(e).__name__
+        cells = [(k, t[k]) for k in range(lo, hi + step, step) if k in t]
+        cells += [(lo - step, 0), (lo - 50 * step, 0), (hi + step, 150), (hi + 50 * step, 150)]
+        bad = []
+        for k, want in cells:
+            if k <= 0:
+                continue
+            n += 1
+            got = sc(k)
+            if got != want:
+                bad.append((k, got, want))
+        if bad:
+            k, got, want = bad[0]
+            where = 'beyond the worst tabulated mark' if (k - lo) * step < 0 else 'beyond the best tabulated mark' if (k - hi) * step > 0 else 'inside the table'
+            out.append((key, 'score(%r, %r, %r, %s) gives %r; the table says %r (%s; %d cells of this table differ)' % (
+                ag, g, ev, k / 100.0, got, want, where, len(bad)), {'table': key, 'mark': k / 100.0, 'got': got, 'want': want}))
+    return out, n
+
